@@ -212,8 +212,18 @@ def campaign(c):
         elif k == 6: src = r.bytes(r.below(200))
         elif k == 7: src = src.replace(b'\n', b'\r\n')
         elif k == 8: src = src[:r.below(len(src) + 1)] + bytes([r.choice([0xff, 0xc3, 0xe2, 0x80, 0x00])]) + src[r.below(len(src) + 1):]
+        if k == 9 or i % 4 == 0:
+            from ..gen import join_lines
+            src = join_lines(src, r, (2, 3))       # several statements per line: the failing one may stand behind others on its line
         impl, model = progdiff.run_both(c, src)
         judge_cli(c, src, impl, model, 'fuzz')
+        if impl['outcome'][0] == 'failure' and impl['outcome'][1] != 'Io' and model['outcome'][0] == 'failure':
+            # asked to keep it (-k): what a failed run leaves behind is the output of the statements completed before the failing
+            # one (Model/Cli.lean addStmtsKeep) - header included, nothing of the failing statement
+            kept = core.run_cli(src, extra_args=['-k'])['pcap']
+            if kept != model['file']:
+                c.disagree('kept-output', dict(src=src.decode('utf-8', 'replace')[:3000]), 'kept %s bytes' % (len(kept) if kept is not None else None), 'model %d bytes' % len(model['file']))
+            c.count('kept-output-compared')
         c.case(('fz', hash(src)), dict(kind='fuzz', src=src.decode('utf-8', 'replace')[:200], outcome=str(impl['outcome'])) if i % 25 == 0 else None)
     # batch with a failing member: the others are still compiled
     d = tempfile.mkdtemp(prefix='rsb')
